@@ -154,6 +154,9 @@ func (r *cacheRun) cfgToks() *toks {
 func (r *cacheRun) events() *toks {
 	t := &toks{}
 	for _, e := range kioshun.VerifTakeTrace() {
+		if e.Kind == kioshun.VerifEvSample {
+			continue // read-buffer replays are outside CacheModel (the estimator is an oracle there)
+		}
 		sh, a := e.Shard, e.A
 		if e.Kind == kioshun.VerifEvLFUVictim {
 			k := e.Key.(int)
